@@ -183,9 +183,11 @@ reg('C23', engine='pysym',
     text='The real _make_c_or_py_source runs on symbolic old/new contents (SymStr proxies) over a model POSIX file '
          'system with a symbolic crash point (every mutating operation, any written prefix): identical content leaves '
          'the file untouched and returns False; otherwise the target holds exactly old or exactly new at every crash '
-         'point and exactly new with no temporary left when there is no crash.',
-    note='Trusted: pysym/SymStr proxies, the POSIX file-system model (atomic rename that does not fail). Determinism '
-         'of the generated text across hash seeds is NOT covered; the text generator is stubbed.',
+         'point and exactly new with no temporary left when there is no crash.  Determinism: the real Recompiler and cdef parser '
+         'run with `set` rebound to a subclass whose iteration order is chosen by the explorer (what PYTHONHASHSEED changes); the '
+         'emitted C and Python texts of three cdefs are identical for every order.',
+    note='Trusted: pysym/SymStr proxies, the POSIX file-system model (atomic rename that does not fail). Other sources of '
+         'nondeterminism than set iteration order are not modelled (dicts are insertion-ordered).',
     technique='symbolic execution of the real Python function via proxies over a model file system with symbolic crash index, SMT (z3)')
 
 reg('C24', engine='pysym',
